@@ -36,6 +36,8 @@ THEOREMS = [
     "Mpc.Graph.compute_eq_of_sols",
     "Mpc.C09_constPropagate_preserves",
     "Mpc.C09_prune_preserves",
+    "Mpc.C09_shortCircuit_preserves",
+    "Mpc.C09_compile_preserves_partial",
 ]
 
 
